@@ -674,47 +674,106 @@ def _concat_parts(e):
     return [ast.unparse(e).replace(" ", "")]
 
 
-def _handler_shape(h):
+def _pattern_ok(pat_text):
+    pat = list(sre_parse.parse(pat_text))
+    good = (len(pat) == 3 and pat[0][0] is sre_c.AT and pat[1][0] is sre_c.MAX_REPEAT and pat[1][1][0] == 1 and list(pat[1][1][2]) == [(sre_c.LITERAL, ord("_"))]
+            and pat[2][0] is sre_c.SUBPATTERN and pat[2][1][0] == 1)
+    if good:
+        inner = list(pat[2][1][3])
+        good = len(inner) == 1 and inner[0][0] is sre_c.MAX_REPEAT and inner[0][1][0] == 0 and inner[0][1][1] == 1 and \
+            list(inner[0][1][2]) == [(sre_c.IN, [(sre_c.RANGE, (ord("A"), ord("Z")))])]
+    return good
+
+
+def _repair_core(fn_node, module_tree, subj, on_miss):
+    """the repair `_` + lower-cased first letter + rest computed from a match of ^_+([A-Z]?) on `subj`: returned on every path where the
+    match is known; on the other paths the function raises the pending error (on_miss = name of that parameter) or returns None
+    (on_miss = None).  -> (ok, why)"""
+    compiled = {}
+    for st in module_tree.body:
+        if isinstance(st, ast.Assign) and isinstance(st.value, ast.Call) and ast.unparse(st.value.func) == "re.compile" and st.value.args \
+                and isinstance(st.value.args[0], ast.Constant) and isinstance(st.targets[0], ast.Name):
+            compiled[st.targets[0].id] = st.value.args[0].value
+    mvar = None
+    for n in ast.walk(fn_node):
+        if not (isinstance(n, ast.Assign) and isinstance(n.value, ast.Call) and isinstance(n.targets[0], ast.Name)):
+            continue
+        c = n.value
+        pat = None
+        if ast.unparse(c.func) == "re.match" and len(c.args) == 2 and isinstance(c.args[0], ast.Constant) and ast.unparse(c.args[1]) == subj:
+            pat = c.args[0].value
+        elif isinstance(c.func, ast.Attribute) and c.func.attr == "match" and isinstance(c.func.value, ast.Name) and c.func.value.id in compiled \
+                and len(c.args) == 1 and ast.unparse(c.args[0]) == subj:
+            pat = compiled[c.func.value.id]
+        if pat is None:
+            continue
+        if not _pattern_ok(pat):
+            return False, f"pattern {pat!r} is not ^_+([A-Z]?)"
+        mvar = n.targets[0].id
+    if mvar is None:
+        return False, "no re.match(<pattern>, stropped)"
+    msub = ast.unparse(pyfront.subst_locals(fn_node, ast.Name(id=mvar, ctx=ast.Load()))).replace(" ", "")
+    wants = [["'_'", f"{x}.group(1).lower()", f"{subj}[{x}.end():]"] for x in (mvar, msub)]
+    n_ret = n_miss = 0
+    for st, gd in pyfront.walk_guarded(fn_node.body):
+        terms = pyfront.guard_terms(gd)
+        matched = (mvar, True) in terms or (f"{mvar} is not None", True) in terms or (f"{mvar} is None", False) in terms
+        if isinstance(st, ast.Return):
+            is_none = st.value is None or (isinstance(st.value, ast.Constant) and st.value.value is None)
+            if is_none:
+                if on_miss is not None or matched:
+                    return False, "returns None where a repaired token or the pending error is due"
+                n_miss += 1
+                continue
+            n_ret += 1
+            parts = _concat_parts(pyfront.subst_locals(fn_node, st.value))
+            if not matched or parts not in wants:
+                return False, f"return of {parts} (match known: {matched})"
+        elif isinstance(st, ast.Raise):
+            n_miss += 1
+            if on_miss is None or st.exc is None or ast.unparse(st.exc) != on_miss or matched:
+                return False, "raise is not the pending error on the no-match path"
+    if not n_ret or not n_miss:
+        return False, "no return / no re-raise"
+    return True, ""
+
+
+def _handler_shape(h, px=None):
     """the language failure handler: m = re.match(<^_+([A-Z]?)>, stropped); on a match returns "_" + m.group(1).lower() +
-    stropped[m.end():]; otherwise raises the pending error"""
+    stropped[m.end():]; otherwise raises the pending error - itself, or through a package function that computes the repair and
+    returns None when there is nothing to repair"""
     ps = [a.arg for a in h.node.args.args]
     if len(ps) < 4:
         return False, "unexpected signature"
     subj, pend = ps[-3], ps[-1]
-    mvar = None
+    ok, why = _repair_core(h.node, h.module.tree, subj, pend)
+    if ok or px is None or why != "no re.match(<pattern>, stropped)":
+        return ok, why
+    # delegation:  r = repair(stropped);  if r is None: raise pending_error;  return r
     for n in ast.walk(h.node):
-        if isinstance(n, ast.Assign) and isinstance(n.value, ast.Call) and ast.unparse(n.value.func) == "re.match" and len(n.value.args) == 2 \
-                and isinstance(n.value.args[0], ast.Constant) and ast.unparse(n.value.args[1]) == subj and isinstance(n.targets[0], ast.Name):
-            pat = list(sre_parse.parse(n.value.args[0].value))
-            good = (len(pat) == 3 and pat[0][0] is sre_c.AT and pat[1][0] is sre_c.MAX_REPEAT and pat[1][1][0] == 1 and list(pat[1][1][2]) == [(sre_c.LITERAL, ord("_"))]
-                    and pat[2][0] is sre_c.SUBPATTERN and pat[2][1][0] == 1)
-            if good:
-                inner = list(pat[2][1][3])
-                good = len(inner) == 1 and inner[0][0] is sre_c.MAX_REPEAT and inner[0][1][0] == 0 and inner[0][1][1] == 1 and \
-                    list(inner[0][1][2]) == [(sre_c.IN, [(sre_c.RANGE, (ord("A"), ord("Z")))])]
-            if not good:
-                return False, f"pattern {n.value.args[0].value!r} is not ^_+([A-Z]?)"
-            mvar = n.targets[0].id
-    if mvar is None:
-        return False, "no re.match(<pattern>, stropped)"
-    msub = ast.unparse(pyfront.subst_locals(h.node, ast.Name(id=mvar, ctx=ast.Load()))).replace(" ", "")
-    wants = [["'_'", f"{x}.group(1).lower()", f"{subj}[{x}.end():]"] for x in (mvar, msub)]
-    n_ret = n_raise = 0
-    for st, gd in pyfront.walk_guarded(h.node.body):
-        terms = pyfront.guard_terms(gd)
-        matched = (mvar, True) in terms or (f"{mvar} is not None", True) in terms or (f"{mvar} is None", False) in terms
-        if isinstance(st, ast.Return):
-            n_ret += 1
-            parts = _concat_parts(pyfront.subst_locals(h.node, st.value)) if st.value is not None else []
-            if not matched or parts not in wants:
-                return False, f"return of {parts} (match known: {matched})"
-        elif isinstance(st, ast.Raise):
-            n_raise += 1
-            if st.exc is None or ast.unparse(st.exc) != pend or matched:
-                return False, "raise is not the pending error on the no-match path"
-    if not n_ret or not n_raise:
-        return False, "no return / no re-raise"
-    return True, ""
+        if isinstance(n, ast.Assign) and isinstance(n.value, ast.Call) and isinstance(n.targets[0], ast.Name) and [ast.unparse(a) for a in n.value.args] == [subj]:
+            for g in px.resolve_call(h, n.value, by_name_fallback=False):
+                gp = [a.arg for a in g.node.args.args]
+                if len(gp) != 1:
+                    continue
+                okg, whyg = _repair_core(g.node, g.module.tree, gp[0], None)
+                if not okg:
+                    return False, f"{g.short}: {whyg}"
+                r = n.targets[0].id
+                n_ret = n_raise = 0
+                for st, gd in pyfront.walk_guarded(h.node.body):
+                    terms = pyfront.guard_terms(gd)
+                    missing = (f"{r} is None", True) in terms or (f"{r} is not None", False) in terms or (r, False) in terms
+                    if isinstance(st, ast.Return):
+                        n_ret += 1
+                        if missing or st.value is None or ast.unparse(st.value) != r:
+                            return False, "the handler does not return the repaired token"
+                    elif isinstance(st, ast.Raise):
+                        n_raise += 1
+                        if not missing or st.exc is None or ast.unparse(st.exc) != pend:
+                            return False, "raise is not the pending error on the no-repair path"
+                return (True, "") if n_ret and n_raise else (False, "no return / no re-raise")
+    return False, why
 
 
 def rule_config(ctx, px, root):
@@ -818,7 +877,7 @@ def rule_config(ctx, px, root):
                     h = f
             if h is None:
                 raise AnalysisError(f"anchor missing: failure handler {hname} of {lang}")
-            ok, why = _handler_shape(h)
+            ok, why = _handler_shape(h, px)
             ctx.ob(R, m.rel, f"{h.short} :: returns `_` + lower-cased first letter + rest, or re-raises", ok, why, h.node.lineno)
         # (e) keyword tables
         if lang in ("c", "cpp"):
